@@ -7,7 +7,7 @@ F-dto-4 (`ts-epoch-pre1970`, repaired by 4f99c94): `Timestamp::parse(EpochSecond
 F-dto-5 (`ts-epoch-f64-text`, repaired by 4f99c94): `format` went through `f64`; 1970-01-01T00:00:01.118Z
 was written `1.1179999999999999`, which denotes another instant and which `parse` refused.
 
-F-xml-7 (`xml-ts-format-panic`, found through component xml / property C13, repaired by 62f4e8c):
+F-xml-7 (`xml-ts-format-panic`, found through component xml / property C13, repaired by b7ef08a):
 `Timestamp::parse(DateTime)` accepted `9999-12-31T23:59:59-01:00`, whose instant is in the year 10000 of UTC;
 `Timestamp::format` fails on it and `utils::format::fmt_timestamp` unwraps that failure (panic in the XML
 serialiser). The positive statement is `C14_ts_parse_format_total`.
@@ -69,7 +69,7 @@ theorem C14_regression_year10000_unwritable :
     formatDateTime ⟨253402304399, 0, -3600⟩ = none ∧ formatHttpDate ⟨253402304399, 0, -3600⟩ = none := by
   decide +kernel
 
-/-- … so `Timestamp::parse` now refuses the text (before 62f4e8c: accepted) -/
+/-- … so `Timestamp::parse` now refuses the text (before b7ef08a: accepted) -/
 theorem C14_regression_year10000_refused : parseRfc3339 tsYear10000 = none := by decide +kernel
 
 /-- the other end: `0000-01-01T00:00:00+01:00` is an instant of the year −1; it was written
